@@ -262,7 +262,7 @@ def c04_runtime(ctx, shape, method, l1, mob, form, ls, aa, weight, masses, num_i
     # recorded known finding: the first Anderson mixing of the Bregman iteration can blow up the right-hand side (ill-conditioned least squares)
     ctx.witness("bregman_anderson_first_mixing_blowup", method == "bregman" and aa > 0 and peak["rhs"] > 1e8 * scale)
     # recorded known finding (see C08): flux_reduced + amg / cg does not converge above 100 unknowns; only the balance clause is affected
-    ctx.witness("flux_reduced_iterative_above_100_unknowns", form == "flux_reduced" and ls in ("amg", "cg") and grid.num_cells + 1 > 100
+    ctx.witness("flux_reduced_iterative_above_100_unknowns", form == "flux_reduced" and ls == "cg" and grid.num_cells + 1 > 100
                 and abs(dist - w.l1_dissipation(flat)) <= 1e-9 * max(1.0, abs(dist)))
     ctx.ensure("mass balance: div(flux) == M (m2 - m1) to solver precision", balance_residual(w, flat, m1, m2) <= 1e-7 * scale)
     ctx.ensure("reported distance == l1_dissipation(returned flux)", abs(dist - w.l1_dissipation(flat)) <= 1e-9 * max(1.0, abs(dist)))
@@ -529,3 +529,36 @@ def c04_face_weight(ctx, shape, mob, l1, weighted):
     fw, fwinv = w._compute_face_weight(u)
     for i in range(nf):
         ctx.ensure(f"face {i}: weight positive and second output its reciprocal", and_(fw[i] > 0, eq(fw[i] * fwinv[i], 1.0)))
+
+
+@ob("C04.rows_sym", cases=lambda tier: [dict(shape=s, method=m) for s in ([(3,), (2, 2), (1, 3), (2, 1, 2)] if tier == "quick" else [(2,), (3,), (5,), (2, 2), (3, 2), (1, 3), (3, 1), (2, 1, 2), (2, 2, 2)])
+                                        for m in ("newton", "bregman")],
+    mods=["darsia.measure.wasserstein", "darsia.utils.fv"], stubs=STEP_STUBS, funcs=FUNCS, samples=(1, 2), budget={"timeout_ms": 20000, "decide_ms": 1500},
+    assumes=["sparse-matrix model vf/symsparse.py (validated by C08.dep_sparse)", "mobility abstracted by its contract (C04.face_weight)"],
+    cite="mass balance enforced as the second block row of every linear system",
+    note="the matrices the real code assembles for an ARBITRARY (symbolic) iterate - darcy_init, broken_darcy, jacobian(.), _update_regularization(.) - have second block row "
+         "[div, 0, -c^T] and third block row [0, c, 0] entry for entry, and div has zero column sums; proof companion of the bounded C04.rows")
+def c04_rows_sym(ctx, shape, method):
+    grid, h = grid_of(shape)
+    w = solver(method, grid, base_options(formulation="full"))
+    nf, nc = int(grid.num_faces), int(grid.num_cells)
+    if ctx.sym:
+        _abstract_mobility_and_cost(ctx, w)
+    sol = ctx.array("sol", (nf + nc + 1,), sample=(-1.0, 1.0))
+    mats = {"darcy_init": w.darcy_init}
+    if method == "newton":
+        mats["broken_darcy"] = w.broken_darcy
+        mats["jacobian"] = w.jacobian(sol)
+    else:
+        mats["regularization"] = w._update_regularization(sol[w.flux_slice])[0]
+    D = np.asarray(w.div.toarray())
+    c = np.zeros((1, nc))
+    c[0, w.constrained_cell_flat_index] = 1.0
+    for name, A in mats.items():
+        a = np.asarray(A.toarray())
+        ctx.ensure(f"{name}: shape", a.shape == (nf + nc + 1, nf + nc + 1))
+        ctx.ensure(f"{name}: second block row is [div, 0, -c^T]", and_(eq(a[nf:nf + nc, :nf], D), eq(a[nf:nf + nc, nf:nf + nc], np.zeros((nc, nc))), eq(a[nf:nf + nc, nf + nc:], -c.T)))
+        ctx.ensure(f"{name}: third block row is [0, c, 0]", and_(eq(a[nf + nc:, :nf], np.zeros((1, nf))), eq(a[nf + nc:, nf:nf + nc], c), eq(a[nf + nc:, nf + nc:], np.zeros((1, 1)))))
+        ctx.ensure(f"{name}: first block row is [W M_f, -div^T, 0] with a diagonal flux block", and_(eq(a[:nf, nf:nf + nc], -D.T), eq(a[:nf, nf + nc:], np.zeros((nf, 1))),
+                                                                                                 eq(a[:nf, :nf] - np.diag(np.diag(a[:nf, :nf])), np.zeros((nf, nf)))))
+    ctx.ensure("every column of div sums to zero (=> the multiplier vanishes for a zero-mean mass difference)", eq(D.sum(axis=0), np.zeros(nf)))
